@@ -179,6 +179,10 @@ class Emitter:
         if o is None or t in (bool, int, float, str):
             self.kinds["scalar"] += 1
             return f"(PScalar {i} {scalar_term(o)})"
+        if isinstance(o, (bytes, bytearray)):
+            # before np.generic: numpy.bytes_ has bytes BEFORE generic in its MRO, so the dispatch picks bytes_get_state
+            self.kinds["bytes" if t in (bytes, bytearray) else "bytes-subclass"] += 1
+            return f"(PBytes {i} {cbool(isinstance(o, bytearray))} {self.cls(t)} {cstr(bytes(o).hex())})"
         if isinstance(o, np.generic):
             self.kinds["npscalar"] += 1
             self.generic.add(f"{get_module(t)}.{t.__name__}")
@@ -209,9 +213,6 @@ class Emitter:
                 self.namedtuples.add(f"{get_module(t)}.{t.__name__}")
             self.kinds[q[1:].lower() if t in (list, set, tuple) else q[1:].lower() + "-subclass"] += 1
             return f"(PSeq {q} {i} {self.cls(t)} {cbool(nt)} {clist(map(E, o), 'pval')})"
-        if isinstance(o, (bytes, bytearray)):
-            self.kinds["bytes"] += 1
-            return f"(PBytes {i} {cbool(isinstance(o, bytearray))} {self.cls(t)} {cstr(bytes(o).hex())})"
         if isinstance(o, slice):
             self.kinds["slice"] += 1
             return f"(PSlice {i} {self.bound(o.start)} {self.bound(o.stop)} {self.bound(o.step)})"
